@@ -3,3 +3,4 @@ pub mod proxy;
 pub mod replicas;
 pub mod store;
 pub mod cloud;
+pub mod backends;
